@@ -40,4 +40,10 @@ Utf8From(s, i) == IF i > Len(s) THEN TRUE
 Utf8Valid(s) == Utf8From(s, 1)
 \* exactly one scalar
 OneScalar(s) == s # <<>> /\ ScalarLen(s, 1) = Len(s)
+\* UTF-8 encoding of a code point (RFC 3629), and the set of Unicode scalar values
+Utf8Enc(cp) == IF cp < 128 THEN <<cp>>
+  ELSE IF cp < 2048 THEN <<192 + (cp \div 64), 128 + (cp % 64)>>
+  ELSE IF cp < 65536 THEN <<224 + (cp \div 4096), 128 + ((cp \div 64) % 64), 128 + (cp % 64)>>
+  ELSE <<240 + (cp \div 262144), 128 + ((cp \div 4096) % 64), 128 + ((cp \div 64) % 64), 128 + (cp % 64)>>
+IsScalar(cp) == (cp >= 0 /\ cp < 55296) \/ (cp > 57343 /\ cp < 1114112)
 =====================================================================
